@@ -38,7 +38,10 @@ Inductive tcond :=
 | CHasPost       (* task.call.postProcessor != nil *)
 | CTaskErr       (* task.err != nil *)
 | CCallErr       (* err != nil, err the error of the last runWrapper call *)
-| CBoth (a b : tcond).
+| CBoth (a b : tcond)
+| CNot (a : tcond).   (* the opposite test: task.err == nil, task.call.postProcessor == nil … (a source that
+                         spells a guard the other way round translates to a program with CNot; Proofs/
+                         GenAgreeStateTask.v compares the behaviour of the programs, not their text) *)
 
 Inductive tstmt :=
 | TCall (p : tproc) (arg : tfield)       (* tmp, err := t.runWrapper(<task ctx>, p, task.arg, …) *)
@@ -68,6 +71,7 @@ Section Task.
     | CTaskErr => ts_err st
     | CCallErr => ts_cerr st
     | CBoth a b => tcond_eval st a && tcond_eval st b
+    | CNot a => negb (tcond_eval st a)
     end.
 
   Definition tget (st : tstate) (fl : tfield) : X :=
